@@ -380,7 +380,7 @@ def run_property(prop_id, obligations, tier, level="model_checking", assumptions
     own = scratch is None
     if own:
         scratch = make_scratch()
-    default_timeout = 150 if tier == "quick" else 900
+    default_timeout = 400 if tier == "quick" else 1200
     known = load_known(prop_id)
     results = []
     try:
